@@ -126,6 +126,8 @@ type MultisetCombinationIterator struct {
 
 	//A buffer slice to return the value in as we iterate using FreqValue
 	value []int
+
+	done bool //Set once there are no more multisets.
 }
 
 //MultisetCombinations returns an iterator which iterates over all multisets containing k elements and with a maximum of m[i] elements of type i. Value returns the multiset of k items and FreqValue returns a slice v where v[i] is the number of i in the multiset.
@@ -175,10 +177,19 @@ func (iter *MultisetCombinationIterator) Next() bool {
 			break
 		}
 		if x > 0 {
+			iter.done = true
 			return false
 		}
 
+		//The empty multiset is the only multiset with no elements.
+		if iter.k == 0 {
+			iter.done = true
+		}
 		return true
+	}
+
+	if iter.done {
+		return false
 	}
 
 	//Q4
@@ -198,6 +209,7 @@ func (iter *MultisetCombinationIterator) Next() bool {
 	//Q5
 Q5:
 	if j >= len(iter.m) {
+		iter.done = true
 		return false
 	}
 
@@ -235,6 +247,7 @@ Q7:
 	for iter.state[j] == iter.m[j] {
 		j++
 		if j >= len(iter.m) {
+			iter.done = true
 			return false
 		}
 	}
